@@ -398,8 +398,10 @@ def main(tier):
     variant = "ossl-asan" if quick else "ossl-plain"
     umasks = ["0077"] if quick else ["0077", "0027", "0007"]
     cnt, samples, ntasks = {}, [], 0
-    for um in umasks:
-        ex = Explorer(C06(umask=um), variant=variant, conf_kw={"umask": um})
+    stores_done = []
+    for um, store in [(u, "file") for u in umasks] + [("0077", "db")]:
+        ex = Explorer(C06(umask=um), variant=variant, store=store, conf_kw={"umask": um})
+        stores_done.append("%s/%s" % (store, um))
         try:
             tasks = []
             for i, (path, what) in enumerate(SCENARIOS):
@@ -424,7 +426,9 @@ def main(tier):
             for (sig, v), r in zip(todo, res):
                 if any(x["signature"] == sig for x in r["viol"]):
                     v = dict(v)
-                    v.update(variant=variant, store="file", replay_module="c06_atrest", umask=um)
+                    v.update(variant=variant, store=store, replay_module="c06_atrest", umask=um)
+                    if store == "db":
+                        v["signature"] = v["signature"].replace("C06|", "C06|db|", 1)
                     rep.add_violation(v)
                 else:
                     rep.harness_errors.append("violation %s did not reproduce" % sig)
@@ -433,10 +437,10 @@ def main(tier):
     if not cnt.get("attribute_values_compared") or cnt.get("scenarios", 0) < 10:
         rep.harness_errors.append("vacuous: %r" % cnt)
     rep.coverage = {"states": cnt.get("scenarios", 0), "transitions": ntasks, "traces_validated_against_impl": cnt.get("scenarios", 0),
-                    "samples": samples, "exhaustive": True, "variant": variant, "umasks": umasks, "outcome_counters": cnt,
+                    "samples": samples, "exhaustive": True, "variant": variant, "umasks": umasks, "stores": stores_done, "outcome_counters": cnt,
                     "rule": "one state = one (storing path x object kind x follow-up history x umask) scenario executed on the real library, after which the raw "
                             "directory is examined by the independent decoder and scanner; the scenario list is enumerated completely"}
-    rep.assumptions = ["file store; the decoder (py/p11mc/storefmt.py + Botan AES via refsh + hashlib) is the trusted base",
+    rep.assumptions = ["file store and SQLite store (the latter read with Python's sqlite3 module); the decoder (py/p11mc/storefmt.py + Botan AES via refsh + hashlib) is the trusted base",
                        "plaintext scan uses 8-byte windows, so values shorter than 8 bytes are only covered by the decoder comparison"]
     return rep.finish()
 
@@ -450,11 +454,12 @@ def replay(rec):
     check = C06(umask=rec.get("umask", "0077"))
     root = P.scratch_root()
     try:
-        template = core.build_template(check, rec["variant"], "file", root, {"umask": rec.get("umask", "0077")})
-        core._worker_init(check, rec["variant"], "file", template, root)
+        store = rec.get("store", "file")
+        template = core.build_template(check, rec["variant"], store, root, {"umask": rec.get("umask", "0077")})
+        core._worker_init(check, rec["variant"], store, template, root)
         r = _task(tuple(rec["task"]))
         core._W["ctx"].stop_shell()
-        sigs = [v["signature"] for v in r["viol"]]
+        sigs = [v["signature"].replace("C06|", "C06|db|", 1) if store == "db" else v["signature"] for v in r["viol"]]
         print("scenario:", rec["task"], "\nrecorded:", rec["signature"], "\nobserved:", sigs)
         if rec["signature"] in sigs:
             print("VIOLATION property=C06 replay=%s" % sys.argv[1])
